@@ -8,7 +8,7 @@
    DefValidator.validate_def_tags/_validate_def_contents.
    Models only -- proofs live in Proofs/DefsProofs.v. *)
 From Coq Require Import List NArith Arith Bool.
-From HV Require Import Base.Res Base.Str.
+From HV Require Import Base.Res Base.Str Gen.C09Fold.
 Import ListNotations.
 
 (* ------------------------------------------------------------------ tags *)
@@ -20,8 +20,10 @@ Inductive base : Set :=
 | BOther (name : str) (tv ur : bool).
 
 (* text = _extension_value without its leading slash ([] = none);
-   torg = org_tag (never changes after construction) *)
-Record tag : Set := mkTag { tbase : base; text : str; torg : str }.
+   torg = org_tag (never changes after construction);
+   tns = schema_namespace ("" or e.g. "tl:"): part of every printed form, never
+   looked at when the tag is classified or switched between Def and Def-expand *)
+Record tag : Set := mkTag { tbase : base; text : str; torg : str; tns : str }.
 
 Inductive node : Set :=
 | T (t : tag)
@@ -48,22 +50,35 @@ Definition base_name (b : base) : str :=
   | BOther n _ _ => n
   end.
 
+(* namespace + short_tag_name *)
+Definition tag_head (t : tag) : str := tns t ++ base_name (tbase t).
+
 (* HedTag.short_tag / __str__ for an identified tag *)
 Definition short_tag (t : tag) : str :=
   match text t with
-  | [] => base_name (tbase t)
-  | e => base_name (tbase t) ++ ch_slash :: e
+  | [] => tag_head t
+  | e => tag_head t ++ ch_slash :: e
   end.
 
-Definition set_base (t : tag) (b : base) : tag := mkTag b (text t) (torg t).
+(* the short_base_tag setter: the namespace stays *)
+Definition set_base (t : tag) (b : base) : tag := mkTag b (text t) (torg t) (tns t).
 
 (* ------------------------------------------------------------------ strings *)
 
 Definition contains (c : N) (s : str) : bool := existsb (N.eqb c) s.
 
-(* str.casefold() on ASCII (generated names are ASCII) *)
+(* str.casefold(): ASCII rule, plus the table Gen/C09Fold.v that the harness regenerates
+   from CPython for every non-ASCII code point its generators can produce (one code
+   point may fold to several: sharp s, ligatures); identity elsewhere *)
 Definition lower_c (c : N) : N := if ((65 <=? c) && (c <=? 90))%N then (c + 32)%N else c.
-Definition lower (s : str) : str := map lower_c s.
+Fixpoint assoc_fold (c : N) (tb : list (N * list N)) : option (list N) :=
+  match tb with
+  | [] => None
+  | (k, l) :: tb' => if N.eqb c k then Some l else assoc_fold c tb'
+  end.
+Definition fold_c (c : N) : list N :=
+  match assoc_fold c c09_fold_table with Some l => l | None => [lower_c c] end.
+Definition lower (s : str) : str := flat_map fold_c s.
 
 (* s.partition('/') -> (head, tail) *)
 Fixpoint partition_slash (s : str) : str * str :=
@@ -269,7 +284,7 @@ Definition add_definitions (D : dict) (fs : list forest) : dict * list dissue :=
 Definition is_placeholder (t : tag) : bool :=
   contains ch_hash (torg t) || contains ch_hash (text t).
 Definition replace_placeholder (t : tag) (v : str) : tag :=
-  mkTag (tbase t) (replace_hash (text t) v) (torg t).
+  mkTag (tbase t) (replace_hash (text t) v) (torg t) (tns t).
 
 (* find_placeholder_tag + replace_placeholder on a deep copy: the FIRST tag
    (depth-first) that is a placeholder gets the value; [done] = already found *)
